@@ -317,11 +317,21 @@ def r08_4(run):
     so.check_so(run, 'R08.4')
 
 
+_IDX = [None]
+
+
 def _nested_returns_closing(u, cb, depth=0):
     """cb: the callback expression given to addCallback - a nested def (possibly through a
     local alias) or a lambda - whose every result is self._closing_deferred."""
     if isinstance(cb, ast.Lambda):
         return dotted(cb.body) == 'self._closing_deferred'
+    if isinstance(cb, ast.Attribute) and dotted(cb.value) == 'self' and _IDX[0] is not None and u.owner_cls is not None:
+        # a bound method of the same class used as the callback
+        m = _IDX[0].find_method(u.owner_cls, cb.attr)
+        if m is not None:
+            rets = [n for n in walk_unit(m) if isinstance(n, ast.Return)]
+            return bool(rets) and all(dotted(r.value) == 'self._closing_deferred' for r in rets)
+        return False
     if not isinstance(cb, ast.Name) or depth > 3:
         return False
     for c in u.children:
@@ -335,6 +345,7 @@ def _nested_returns_closing(u, cb, depth=0):
 
 
 def r08_5(run):
+    _IDX[0] = run.idx
     for ci, name, cmd in ((circuit_cls(run), 'Circuit', 'close_circuit'), (stream_cls(run), 'Stream', 'close_stream')):
         cl = run.idx.find_method(ci, 'close')
         g = cfg_of(cl)
@@ -376,6 +387,12 @@ def r08_5(run):
                                 for ch in cl.children:
                                     if ch.name == c.args[0].id and any(is_call_to(x, v.id + '.callback') for x in walk_unit(ch)):
                                         fired = True
+                                # ... or a module-level relay given the fresh Deferred as an extra argument: addBoth(relay, d)
+                                mf = cl.module.functions.get(c.args[0].id)
+                                if mf is not None and any(dotted(a_) == v.id for a_ in c.args[1:]):
+                                    pos = [dotted(a_) for a_ in c.args[1:]].index(v.id) + 1
+                                    if pos < len(mf.params) and any(is_call_to(x, mf.params[pos] + '.callback') for x in walk_unit(mf)):
+                                        fired = True
                         ok = fired
                         why = 'returns a fresh Deferred that nothing fires'
             run.ob('R08.5', cl, rn.ast, '%s.close returns a Deferred tied to the closing event' % name, ok, slot='close-return:%s:%s' % (name, src(v)[:30]),
@@ -384,8 +401,11 @@ def r08_5(run):
         # added later to the pending Deferred (the first caller's, the other repeated requests') receives instead of the outcome
         for c in calls_in(cl):
             if callee_attr(c) in ('addBoth', 'addCallback', 'addErrback') and dotted(receiver(c)) == 'self._closing_deferred' and c.args and isinstance(c.args[0], ast.Name):
-                for ch in cl.children:
-                    if ch.name != c.args[0].id or not ch.node.args.args:
+                cands = [ch for ch in cl.children if ch.name == c.args[0].id]
+                if not cands and c.args[0].id in cl.module.functions:
+                    cands = [cl.module.functions[c.args[0].id]]
+                for ch in cands:
+                    if not ch.node.args.args:
                         continue
                     par = ch.node.args.args[0].arg
                     gc = cfg_of(ch)
